@@ -23,23 +23,49 @@ from harness import tasklib as tl
 from harness import tlc
 from harness.common import MachineryFailure, parallel, run_workers
 
-PROP_FLAGS = ["cb-raise-breaks", "cancel-in-cb-skips-cleanup", "cancel-unstarted-typeerror", "svc-addcb-keyerror"]
+PROP_FLAGS = ["cb-raise-breaks", "cancel-in-cb-skips-cleanup", "cancel-unstarted-typeerror", "svc-addcb-keyerror",
+              "call-couples-cancel", "method-cb-per-lookup"]
 # a seventh finding (cb-shared-interpreter) corrupts data, not the protocol: it has no model flag, see tasklib.validate
 
 
 # ------------------------------------------------------------------------------------------------
 # task graphs
+# operation mixes of the three scenario families (weights; "graph" is the original family + service calls)
+PROFILES = {
+    "graph":   {"create": 18, "addcb": 22, "rmcb": 7, "wait": 10, "cancel": 10, "cancelself": 3, "sleep": 16, "unique": 6,
+                "exec": 4, "raise": 4, "call": 8},
+    # runs that call pyscript services (blocking or not, same or other global context, nested) while they own
+    # unique names / done-callbacks / a context
+    "call":    {"create": 5, "addcb": 14, "rmcb": 2, "wait": 4, "cancel": 8, "cancelself": 2, "sleep": 20, "unique": 10,
+                "exec": 1, "raise": 4, "call": 30},
+    # callback tables: several callables of every kind on one task, re-added, removed, then every way of ending
+    "cbtable": {"create": 6, "addcb": 50, "rmcb": 20, "wait": 0, "cancel": 4, "cancelself": 4, "sleep": 10, "unique": 2,
+                "exec": 0, "raise": 4, "call": 0},
+}
+
+
 class Gen:
-    def __init__(self, r, masked):
+    def __init__(self, r, masked, profile="graph"):
         self.r = r
         self.masked = masked
+        self.profile = profile
+        self.w = PROFILES[profile]
         self.free = ["t2", "t3", "t4"]
         self.sleepy = set()       # tasks that (may) get a sleeping done-callback
         self.targets = set()      # tasks some program aims a cancel at
         self.claims = set()
+        self.coupled = set()      # callers and callees of blocking service calls
 
-    def cb_args(self, owner):
+    def pick_fn(self):
         r = self.r
+        if self.profile != "cbtable" and r.random() < 0.5:
+            return r.choice(tl.FNS[:2] + tl.FNS)          # the original family: pyscript functions
+        kind = r.choice(sorted(tl.FN_KINDS))              # every kind of callable equally often
+        return r.choice(tl.FN_KINDS[kind])
+
+    def cb_args(self, owner, fn=None):
+        r = self.r
+        fn = fn or self.pick_fn()
         k = r.random()
         if k < 0.5 or (self.masked and owner in self.targets | self.claims):
             beh = "ret"
@@ -51,9 +77,60 @@ class Gen:
             beh = "raise"
         else:
             beh = "sleepraise"
+        can = tl.FN_BEH[tl.KIND_OF[fn]]
+        if beh not in can:
+            beh = "raise" if (beh == "sleepraise" and "raise" in can) else "ret"
         if beh in ("sleep", "sleepraise"):
             self.sleepy.add(owner)
-        return [r.choice(tl.FNS[:2] + tl.FNS), r.choice([1, 2]), beh, r.choice([1, 2])]
+        return [fn, r.choice([1, 2]), beh, r.choice([1, 2])]
+
+    def cbtable_prog(self, me, idx, kind):
+        """Callback-table family: 3-5 distinct callables (the kind of the one that is removed cycles through all
+        kinds, the others are drawn from all twelve) are registered on one task - the caller itself or a child it
+        has just created -, some are registered again with other arguments, one registered function is removed
+        (sometimes also one that is not registered, sometimes it is added again), then the task ends in one of the
+        ways of the statement; the crash-point re-runs add cancellation / raise at its parks."""
+        r = self.r
+        p = []
+        tgt, who = me, "self"
+        if r.random() < 0.3 and self.free:
+            ch = self.free.pop(0)
+            p.append(["create", ch, [["sleep", r.choice([1, 2])]]])
+            tgt, who = ch, ch
+        kinds = sorted(tl.FN_KINDS)
+        if self.masked:
+            kinds.remove("method")        # mask of method-cb-per-lookup: a bound method is added once, never removed
+        victim = r.choice(tl.FN_KINDS[kinds[idx % len(kinds)]])
+        fns = [victim] + r.sample([f for f in tl.ALL_FNS if f != victim], r.randint(2, 4))
+        r.shuffle(fns)
+        ops = []
+        if not (tgt == me and kind == "svc" and self.masked):
+            for f in fns:
+                ops.append(["addcb", who] + self.cb_args(tgt, f))
+            for op in list(ops):
+                if r.random() < 0.3 and not (self.masked and tl.KIND_OF[op[2]] == "method"):
+                    ops.append(op[:3] + [3 - op[3]] + op[4:])       # again, other argument version: replaces
+            ops.append(["rmcb", who, victim])
+            if r.random() < 0.3:
+                other = r.choice([f for f in tl.ALL_FNS if f not in fns])
+                if not (self.masked and tl.KIND_OF[other] == "method"):
+                    ops.insert(r.randint(0, len(ops)), ["rmcb", who, other])     # not registered: no effect
+            if r.random() < 0.2:
+                ops.append(["addcb", who] + self.cb_args(tgt, victim))           # removed, then added again
+        p += ops
+        k = r.random()
+        if k < 0.35:
+            p.append(["sleep", r.choice([1, 2])])
+        elif k < 0.5 and not self.masked:
+            p.append(["raise"])
+        elif k < 0.65 and not (self.masked and me in self.sleepy):
+            self.targets.add(me)
+            p.append(["cancel", "self"])
+        elif k < 0.8 and not (self.masked and me in self.sleepy):
+            self.claims.add(me)
+            p.insert(0, ["unique", "n1", False])
+            p.append(["sleep", 2])
+        return p
 
     def prog(self, me, depth, kind):
         r = self.r
@@ -62,9 +139,15 @@ class Gen:
         fresh = None           # child created last in this atomic step (no suspension since)
         unstarted = set()      # all children created since the last suspension of this task
         added = []             # (target, op) of the add_done_callback operations so far
-        for _ in range(r.randint(1, 5 if depth == 0 else 3)):
-            k = r.random()
-            if k < 0.18 and self.free and depth < 2:
+        names, weights = zip(*sorted(self.w.items()))
+        nmax = 5 if depth == 0 else 3
+        if self.profile == "cbtable" and depth == 0:
+            nmax = 7
+        for _ in range(r.randint(2 if self.profile != "graph" and depth == 0 else 1, nmax)):
+            k = r.choices(names, weights)[0]
+            if k == "create":
+                if not (self.free and depth < 2):
+                    continue
                 ch = self.free.pop(0)
                 p.append(["create", ch, None])
                 sub = len(p) - 1
@@ -72,49 +155,79 @@ class Gen:
                 kids.append(ch)
                 fresh = ch
                 unstarted.add(ch)
-            elif k < 0.40:
+            elif k == "call":
+                if not (self.free and depth < 2):
+                    continue
+                ch = self.free.pop(0)
+                blocking = r.random() < 0.65
+                p.append(["call", ch, None, blocking, r.choice(["c1", "c1", "c2"]), r.choice(["attr", "call"])])
+                sub = len(p) - 1
+                if blocking:
+                    self.coupled |= {me, ch}
+                p[sub][2] = self.prog(ch, depth + 1, "svc")
+                kids.append(ch)
+                if blocking:
+                    fresh = None
+                    unstarted = set()
+                else:
+                    unstarted.add(ch)     # a service task is known to nobody before its first step anyway
+            elif k == "addcb":
                 tgt = me if (fresh is None or r.random() < 0.5) else fresh
                 if tgt == me and kind == "svc" and self.masked:
                     continue              # mask of svc-addcb-keyerror
                 again = [op for (tg, op) in added if tg == tgt]
+                if self.masked:           # mask of method-cb-per-lookup: a bound method is added once and never removed
+                    again = [op for op in again if tl.KIND_OF[op[2]] != "method"]
                 if again and r.random() < 0.5:
                     # the same function once more with the other argument version: the later add replaces it
                     old = r.choice(again)
                     p.append(old[:3] + [3 - old[3]] + old[4:])
                 else:
-                    p.append(["addcb", "self" if tgt == me else tgt] + self.cb_args(tgt))
+                    op = ["addcb", "self" if tgt == me else tgt] + self.cb_args(tgt)
+                    if self.masked and tl.KIND_OF[op[2]] == "method" and any(tg == tgt and o[2] == op[2] for (tg, o) in added):
+                        continue
+                    p.append(op)
                 added.append((tgt, p[-1]))
-            elif k < 0.47:
+            elif k == "rmcb":
                 tgt = me if (fresh is None or r.random() < 0.5) else fresh
                 if tgt == me and kind == "svc" and self.masked:
                     continue
-                p.append(["rmcb", "self" if tgt == me else tgt, r.choice(tl.FNS)])
-            elif k < 0.57 and kids:
+                have = [op[2] for (tg, op) in added if tg == tgt]
+                # mostly a function that is registered (removal must be exact), sometimes one that is not (no effect)
+                fn = r.choice(have) if (have and r.random() < 0.7) else self.pick_fn()
+                if self.masked and tl.KIND_OF[fn] == "method":
+                    continue
+                p.append(["rmcb", "self" if tgt == me else tgt, fn])
+            elif k == "wait":
+                if not kids:
+                    continue
                 p.append(["wait", r.choice(kids)])
                 fresh = None
                 unstarted = set()
-            elif k < 0.67 and kids:
+            elif k == "cancel":
+                if not kids:
+                    continue
                 v = r.choice(kids)
                 if self.masked and (v in unstarted or v in self.sleepy):
                     continue              # masks of cancel-unstarted-typeerror / cancel-in-cb-skips-cleanup
                 self.targets.add(v)
                 p.append(["cancel", v])
-            elif k < 0.70:
+            elif k == "cancelself":
                 if self.masked and me in self.sleepy:
                     continue
                 self.targets.add(me)
                 p.append(["cancel", "self"])
                 break
-            elif k < 0.86:
+            elif k == "sleep":
                 p.append(["sleep", r.choice([0, 1, 1, 2])])
                 fresh = None
                 unstarted = set()
-            elif k < 0.92:
+            elif k == "unique":
                 if self.masked and me in self.sleepy:
                     continue
                 self.claims.add(me)
                 p.append(["unique", "n1", r.random() < 0.25])
-            elif k < 0.96:
+            elif k == "exec":
                 p.append(["exec", r.choice(["ret", "kw", "raise", "py"]), r.randint(0, 9)])
             else:
                 p.append(["raise"])
@@ -122,12 +235,18 @@ class Gen:
         return p
 
 
-def gen_scenario(r, sid, masked):
-    g = Gen(r, masked)
+def gen_scenario(r, sid, masked, profile="graph", idx=0):
+    g = Gen(r, masked, profile)
     legacy = r.random() < 0.5
     how = r.choice(["ev", "ev", "st", "svc"])
-    events = [{"at": 0, "do": "spawn", "tag": "t1", "how": how, "ctx": "c1", "prog": g.prog("t1", 0, "svc" if how == "svc" else "trig")}]
-    if r.random() < 0.4:
+    kd = "svc" if how == "svc" else "trig"
+    events = [{"at": 0, "do": "spawn", "tag": "t1", "how": how, "ctx": "c1",
+               "prog": g.cbtable_prog("t1", idx, kd) if profile == "cbtable" else g.prog("t1", 0, kd)}]
+    if profile == "cbtable" and "t1" in g.claims and not (masked and g.sleepy):
+        # the owner of the name is killed by a rival claimant while it sleeps
+        g.claims.add("t5")
+        events.append({"at": 1, "do": "spawn", "tag": "t5", "how": "ev", "ctx": "c1", "prog": [["unique", "n1", False]]})
+    elif r.random() < 0.4:
         # a second root: a controller that cancels / waits for tasks of the first graph, or a rival claimant
         made = [t for t in ("t2", "t3", "t4") if t not in g.free]
         cand = ["t1"] + made
@@ -141,6 +260,7 @@ def gen_scenario(r, sid, masked):
             elif k < 0.7:
                 p.append(["wait", v])
             elif k < 0.85 and not (masked and g.sleepy):
+                g.claims.add("t5")
                 p.append(["unique", "n1", r.random() < 0.25])
             else:
                 p.append(["sleep", 1])
@@ -148,11 +268,18 @@ def gen_scenario(r, sid, masked):
     # masked space: the decisions above depend on the order of generation; re-check and drop what slipped through
     if masked:
         bad = g.sleepy & (g.targets | g.claims)
+        # mask of call-couples-cancel: no cancellation (task.cancel, a task.unique kill) is aimed at the caller or the
+        # callee of a blocking service call; a rival claimant could kill any claimant
+        bad |= g.coupled & g.targets
+        if g.coupled & g.claims and len(g.claims) > 1:
+            bad |= g.coupled
         if bad or len(g.sleepy) > 1:      # > 1: mask of cb-shared-interpreter (no overlapping suspended callbacks)
-            return gen_scenario(r, sid, masked)
+            return gen_scenario(r, sid, masked, profile, idx)
+    if profile == "call" and not any(op[0] == "call" for p in flat_progs({"events": events}).values() for op in p):
+        return gen_scenario(r, sid, masked, profile, idx)
     horizon = 12
-    return {"sid": sid, "legacy": legacy, "masked": masked, "events": events, "horizon": horizon,
-            "snaps": [k + 0.5 for k in range(horizon + 1)], "sleepy": sorted(g.sleepy)}
+    return {"sid": sid, "legacy": legacy, "masked": masked, "events": events, "horizon": horizon, "profile": profile,
+            "snaps": [k + 0.5 for k in range(horizon + 1)], "sleepy": sorted(g.sleepy), "coupled": sorted(g.coupled)}
 
 
 def flat_progs(scn):
@@ -161,7 +288,7 @@ def flat_progs(scn):
     def walk(tag, prog):
         out[tag] = prog
         for op in prog:
-            if op[0] == "create":
+            if op[0] in ("create", "call"):
                 walk(op[1], op[2])
     for ev in scn["events"]:
         if ev["do"] == "spawn":
@@ -178,8 +305,9 @@ def variants(scn, case, r, cap):
             continue
         at = ts / 1000.0 + 0.25
         in_cb = kind == "cb"
-        if scn["masked"] and (in_cb or t in scn["sleepy"]):
-            # mask of cancel-in-cb-skips-cleanup: nothing is aimed at a task whose done-callback may sleep
+        if scn["masked"] and (in_cb or t in scn["sleepy"] or t in scn.get("coupled", ())):
+            # mask of cancel-in-cb-skips-cleanup: nothing is aimed at a task whose done-callback may sleep;
+            # mask of call-couples-cancel: nor at the caller / callee of a blocking service call
             kinds = ["raise"] if not in_cb else []
         else:
             kinds = ["env", "ctl", "raise"]
@@ -220,14 +348,14 @@ def work(job):
         out.append(base)
         if scn["sid"].startswith("witness/"):
             continue
-        for v in variants(scn, base, r, job["cap"]):
+        for v in variants(scn, base, r, job.get("caps", {}).get(scn.get("profile", "graph"), job["cap"])):
             out.append(tl.run_scenario(v))
     return out
 
 
 def nontrivial(case):
     ops = [ln["op"] for ln in case["trace"] if ln["k"] == "op"]
-    return any(o in ("addcb", "cancel", "wait", "create") for o in ops) or any(ln["k"] == "envcancel" for ln in case["trace"])
+    return any(o in ("addcb", "cancel", "wait", "create", "call") for o in ops) or any(ln["k"] == "envcancel" for ln in case["trace"])
 
 
 def witnesses():
@@ -254,6 +382,21 @@ def witnesses():
         out.append(S("witness/svc-addcb-keyerror/" + sub, legacy, [
             {"at": 0, "do": "spawn", "tag": "t1", "how": "svc", "ctx": "c1",
              "prog": [["addcb", "self", "g1", 1, "ret", 0], ["sleep", 1]]}]))
+        # the blocked caller is cancelled: the called run must live on / the called run is cancelled: the caller goes on
+        out.append(S("witness/call-couples-cancel/%s/caller" % sub, legacy, [
+            {"at": 0, "do": "spawn", "tag": "t1", "how": "ev", "ctx": "c1",
+             "prog": [["call", "t2", [["sleep", 3]], True, "c1", "attr"], ["sleep", 1]]},
+            {"at": 1, "do": "envcancel", "tag": "t1"}]))
+        out.append(S("witness/call-couples-cancel/%s/callee" % sub, legacy, [
+            {"at": 0, "do": "spawn", "tag": "t1", "how": "ev", "ctx": "c1",
+             "prog": [["call", "t2", [["sleep", 3]], True, "c2", "call"], ["sleep", 1]]},
+            {"at": 1, "do": "envcancel", "tag": "t2"}]))
+        out.append(S("witness/method-cb-per-lookup/%s/again" % sub, legacy, [
+            {"at": 0, "do": "spawn", "tag": "t1", "how": "ev", "ctx": "c1",
+             "prog": [["addcb", "self", "m1", 1, "ret", 0], ["addcb", "self", "m1", 2, "ret", 0]]}]))
+        out.append(S("witness/method-cb-per-lookup/%s/remove" % sub, legacy, [
+            {"at": 0, "do": "spawn", "tag": "t1", "how": "ev", "ctx": "c1",
+             "prog": [["addcb", "self", "m1", 1, "ret", 0], ["addcb", "self", "m2", 1, "ret", 0], ["rmcb", "self", "m2"]]}]))
     return out
 
 
@@ -274,13 +417,18 @@ def model_runs(ctx):
         return go
     # exit protocol of one task: two callback functions, re-registration, removal, env cancellation at every park
     runs.append(stmt("c14_exit", {"Task": "{t1}", "Fn": "{g1, g2}", "MaxArg": "2", "MaxOps": "3", "MaxEnv": "1",
-                                  "Ops": '{"sleep", "raise", "addcb", "rmcb"}'}, {2, 3, 6, 7, 8, 9, 10}))
+                                  "Ops": '{"sleep", "raise", "addcb", "rmcb"}'}, {2, 3, 6, 7, 8, 9, 10, 11, 12, 13}))
     # names + callbacks + cancellation between two tasks (owner suspended in its exit protocol, head-of-line blocking)
     runs.append(stmt("c14_unique_cb_cancel", {"Task": "{t1, t2}", "Fn": "{g1}", "MaxOps": "2", "MaxEnv": "1",
-                                              "Ops": '{"unique", "sleep", "cancel", "addcb"}'}, {5, 7, 8, 9}))
+                                              "Ops": '{"unique", "sleep", "cancel", "addcb"}'}, {5, 7, 8, 9, 11, 12, 13}))
     # task graphs: create / cancel / wait
     runs.append(stmt("c14_graph", {"Task": "{t1, t2, t3}", "MaxOps": "2", "Ops": '{"create", "cancel", "wait"}'},
-                     {3, 4, 5, 6, 8, 10}))
+                     {3, 4, 5, 6, 8, 10, 11, 12, 13}))
+    # runs that call services: a run that owns a name / a done-callback calls a service (blocking or not); hass-side
+    # cancellation at every park of caller and callee (visits: blocked in a call whose run sleeps; caller cancelled
+    # inside a blocking call, the called run lives on; called run cancelled, the caller goes on)
+    runs.append(stmt("c14_call", {"Task": "{t1, t2}", "Fn": "{g1}", "MaxOps": "2", "MaxEnv": "1",
+                                  "Ops": '{"call", "sleep", "unique", "addcb"}'}, {5, 8, 9}))
     if not ctx.quick:
         runs.append(stmt("c14_graph_sleep_raise", {"Task": "{t1, t2, t3}", "MaxOps": "2",
                                                    "Ops": '{"sleep", "raise", "create", "cancel", "wait"}'}, None, workers=5))
@@ -289,11 +437,14 @@ def model_runs(ctx):
         runs.append(stmt("c14_two_cbs_two_tasks", {"Task": "{t1, t2}", "Fn": "{g1, g2}", "MaxArg": "2", "MaxOps": "2", "MaxEnv": "1",
                                                    "Ops": '{"sleep", "raise", "addcb", "rmcb", "cancel"}'}, None, workers=5))
 
+        runs.append(stmt("c14_call_nested", {"Task": "{t1, t2, t3}", "MaxOps": "2", "MaxEnv": "1",
+                                             "Ops": '{"call", "sleep", "cancel"}'}, None, workers=5))
+
         def sim():
             c = dict(one)
             c.update({"Task": "{t1, t2, t3, t4}", "Fn": "{g1, g2}", "MaxArg": "2", "MaxOps": "4", "MaxEnv": "2",
                       "Kinds": '{"trig", "svc"}',
-                      "Ops": '{"unique", "sleep", "raise", "create", "cancel", "addcb", "rmcb", "wait", "exec"}'})
+                      "Ops": '{"unique", "sleep", "raise", "create", "cancel", "addcb", "rmcb", "wait", "exec", "call"}'})
             cfg = tl.mc_cfg(ctx, "c14_sim", c, inv, symmetry=False)
             res = tlc.run("Tasks", cfg, ctx.scratch, workers=tl.tlc_workers(4), timeout=3000,
                           extra=["-simulate", "num=3000", "-depth", "70", "-seed", str(ctx.seed + 1)])
@@ -313,15 +464,24 @@ def main(ctx):
         tl.validate(ctx, "C14", [c for r in cases for c in r], "replay")
         return
     r = random.Random(ctx.seed)
-    per = ctx.pick(5, 100)
+    per = ctx.pick(4, 80)
     cap = ctx.pick(4, 40)
+    # the two families added in round 3 (service calls, callback tables of every kind of callable): fewer
+    # crash-point re-runs per base scenario
+    extra = {"call": ctx.pick(2, 30), "cbtable": ctx.pick(2, 30)}
+    caps = {"graph": cap, "call": ctx.pick(3, 40), "cbtable": ctx.pick(1, 10)}
     njobs = 12
     scns = []
     for j in range(njobs):
         for k in range(per):
             masked = k % 2 == 1
             scns.append(gen_scenario(r, "%s/%d.%d" % ("m" if masked else "u", j, k), masked))
-    jobs = [{"scns": scns[j::njobs], "seed": ctx.seed * 100 + j, "cap": cap} for j in range(njobs)]
+        for prof in ("call", "cbtable"):
+            for k in range(extra[prof]):
+                masked = k % 2 == 1
+                scns.append(gen_scenario(r, "%s/%s%d.%d" % ("m" if masked else "u", prof, j, k), masked, prof,
+                                         idx=len(scns)))
+    jobs = [{"scns": scns[j::njobs], "seed": ctx.seed * 100 + j, "cap": cap, "caps": caps} for j in range(njobs)]
     jobs[0]["scns"] = witnesses() + jobs[0]["scns"]
     # development on a shared machine: VERIF_NPROC=4 caps the check at about four processes
     dev_cap = int(os.environ.get("VERIF_NPROC", 0))
@@ -343,6 +503,10 @@ def main(ctx):
     ctx.cov["evaluations"] = len(gen)
     ctx.cov["base_scenarios"] = len(base)
     ctx.cov["crash_point_reruns"] = len(inj)
+    ctx.cov["base_scenarios_by_family"] = {}
+    for c in base:
+        prof = c["scn"].get("profile", "graph")
+        ctx.cov["base_scenarios_by_family"][prof] = ctx.cov["base_scenarios_by_family"].get(prof, 0) + 1
     ctx.cov["crash_points_by_kind"] = {}
     for c in inj:
         key = "%s/%s" % (c["scn"]["point"]["kind"], c["scn"]["point"]["inject"])
@@ -351,9 +515,13 @@ def main(ctx):
                                           for c in gen if nontrivial(c)})
     ctx.cov["rule"] = ("random task graphs (<= 4 tasks + optional controller root; roots started by @event_trigger / "
                        "@state_trigger / service call, children by task.create; operations create / add_done_callback(self|fresh "
-                       "child, g1-g3, args, behaviour return|raise|sleep|sleep-then-raise) / remove_done_callback / wait / "
-                       "cancel(self|child) / sleep / unique / raise / executor), both subsystems; each base run is followed by "
-                       "one re-run per recorded suspension point (sleep, task.wait, sleep inside a done-callback) x injection "
+                       "child, 12 callables of 7 kinds: pyscript def / closure / @pyscript_compile function / coroutine function / "
+                       "lambda / bound method of a Python object / bound method of a pyscript class instance, args, behaviour "
+                       "return|raise|sleep|sleep-then-raise) / remove_done_callback / wait / cancel(self|child) / sleep / unique / "
+                       "raise / executor / call of a pyscript service (blocking or not, same or other context, both API forms; "
+                       "the called run has a program of its own)), three operation mixes (graph, call, cbtable), both "
+                       "subsystems; each base run is followed by one re-run per recorded suspension point (sleep, task.wait, "
+                       "blocked in a service call, sleep inside a done-callback) x injection "
                        "(hass-side reaper_cancel, task.cancel from a controller task, raise after the resumption), capped per "
                        "base scenario in quick; non-trivial = the run contains create/add_done_callback/cancel/wait or an "
                        "injected cancellation; distinct by scenario")
@@ -371,7 +539,45 @@ def main(ctx):
     ctx.cov["executor_checks"] = acts.get("xres", 0)
     if not acts.get("xres") or not acts.get("cbop:sleep") or not acts.get("envcancel"):
         raise MachineryFailure("vacuous coverage: %s" % acts)
-    ctx.cov["bounds"] = {"tasks": 6, "callback_functions": 3, "names": 1, "contexts": 1, "ops_per_task": 5}
+    # round 3 families, counted from the recordings (coverage only, no verdict): invocations per kind of callable,
+    # removals that had to be exact (other functions registered on that task), service calls by form
+    kinds = {k: {"added": 0, "invoked": 0, "removed_while_registered": 0} for k in tl.FN_KINDS}
+    exact = 0
+    calls = {"blocking": 0, "non_blocking": 0, "returned": 0, "other_context": 0, "caller_owned_name_or_callback": 0,
+             "caller_cancelled_while_blocked_or_callee_cancelled": 0}
+    for c in gen:
+        table, owns, ctx_of = {}, set(), {}
+        for ln in c["trace"]:
+            if ln["k"] == "spawn":
+                ctx_of[ln["t"]] = ln["c"]
+            if ln["k"] == "cb":
+                kinds[tl.KIND_OF[ln["f"]]]["invoked"] += 1
+            if ln["k"] != "op":
+                continue
+            if ln["op"] == "addcb":
+                kinds[tl.KIND_OF[ln["f"]]]["added"] += 1
+                table.setdefault(ln["v"], set()).add(ln["f"])
+                owns.add(ln["v"])
+            elif ln["op"] == "rmcb" and ln["f"] in table.get(ln["v"], ()):
+                kinds[tl.KIND_OF[ln["f"]]]["removed_while_registered"] += 1
+                exact += len(table[ln["v"]]) > 1
+                table[ln["v"]].discard(ln["f"])
+            elif ln["op"] == "unique":
+                owns.add(ln["t"])
+            elif ln["op"] == "call":
+                calls["blocking" if ln["bl"] else "non_blocking"] += 1
+                calls["other_context"] += ln["c"] != ctx_of.get(ln["t"], "c1")
+                ctx_of[ln["ch"]] = ln["c"]
+                calls["caller_owned_name_or_callback"] += ln["t"] in owns
+        calls["returned"] += len([ln for ln in c["trace"] if ln["k"] == "res" and ln["w"] == "called"])
+        calls["caller_cancelled_while_blocked_or_callee_cancelled"] += "call-couples-cancel" in (why.get(c["id"]) or [])
+    ctx.cov["callable_kinds"] = kinds
+    ctx.cov["exact_removals"] = exact
+    ctx.cov["service_calls_from_runs"] = calls
+    if any(not v["invoked"] for v in kinds.values()) or not exact or not calls["returned"] or not calls["non_blocking"] \
+            or not calls["caller_owned_name_or_callback"]:
+        raise MachineryFailure("vacuous coverage (callable kinds / exact removals / service calls): %s %s %s" % (kinds, exact, calls))
+    ctx.cov["bounds"] = {"tasks": 6, "callback_functions": 12, "names": 1, "contexts": 2, "ops_per_task": 7}
     for c in (base[:1] + inj[:1]):
         ctx.sample({"id": c["id"], "legacy": c["scn"]["legacy"], "events": c["scn"]["events"], "point": c["scn"].get("point"),
                     "trace_lines": len(c["trace"]), "verdict": why.get(c["id"], "accepted")})
